@@ -500,6 +500,7 @@ def run(chk):
 
 _I = "skgenome/intersect.py"
 MUTANTS = [
+    dict(name="twin: trim clips through assign", expect="silent", file=_I, old="            if start_val:\n                subtable.start = subtable.start.clip(lower=start_val)", new="            if start_val:\n                subtable = subtable.assign(start=subtable.start.clip(lower=start_val))"),
     dict(name="seeded C07c: one-chromosome shortcut when the other table merely covers it", file=_I, old="    if len(table_chr) == 1 and table_chr == other_chr:", new="    if len(table_chr) == 1 and table_chr <= other_chr:"),
     dict(name="seeded C13d: shortcut by .any() instead of set equality", file=_I, old="""    table_chr, other_chr = set(table["chromosome"]), set(other["chromosome"])
     if len(table_chr) == 1 and table_chr == other_chr:
@@ -511,6 +512,7 @@ MUTANTS = [
         yield table["chromosome"].iat[0], table, other""", new="""    table_chr = table["chromosome"].unique()
     if len(table_chr) == 1 and (other["chromosome"] == table_chr[0]).all():
         yield table_chr[0], table, other"""),
+    dict(name="twin: shortcut tested with nunique and set equality", expect="silent", file=_I, old="    table_chr, other_chr = set(table[\"chromosome\"]), set(other[\"chromosome\"])\n    if len(table_chr) == 1 and table_chr == other_chr:", new="    table_chr, other_chr = set(table[\"chromosome\"].unique()), set(other[\"chromosome\"].unique())\n    if table[\"chromosome\"].nunique() == 1 and table_chr == other_chr:"),
     dict(name="keep_empty ignored for absent chromosomes", file=_I, old="            elif keep_empty:\n                yield chrom, ctable, None", new="            else:\n                yield chrom, ctable, None"),
     dict(name="regress: bisect end on nested rows when ends missing", file=_I, old="        if not table.end.is_monotonic_increasing:", new="        if ((ends is not None and len(ends)) and (starts is not None and len(starts))) and not table.end.is_monotonic_increasing:"),
     dict(name="regress: into_ranges returns dest", file=_I, old="        return pd.Series([default] * len(dest))", new="        return dest"),
